@@ -2,7 +2,7 @@ use std::collections::HashMap;
 use std::sync::Arc;
 
 use actix::Addr;
-use actix_web::{web, HttpRequest, HttpResponse, Responder, Scope};
+use actix_web::{web, HttpMessage, HttpRequest, HttpResponse, Responder, Scope};
 use chrono::Local;
 use serde::{Deserialize, Serialize};
 
@@ -19,7 +19,7 @@ use crate::config::core::{
 use crate::config::utils::param_utils;
 use crate::config::ConfigUtils;
 use crate::console::v2::ERROR_CODE_SYSTEM_ERROR;
-use crate::merge_web_param;
+use crate::{merge_web_param, user_namespace_privilege};
 use crate::openapi::constant::EMPTY;
 use crate::raft::cluster::model::{DelConfigReq, SetConfigReq};
 use crate::utils::select_option_by_clone;
@@ -175,11 +175,15 @@ pub struct ConfigWebConfirmedParam {
 }
 
 pub(crate) async fn add_config(
+    req: HttpRequest,
     a: web::Query<ConfigWebParams>,
     payload: web::Payload,
     appdata: web::Data<Arc<AppShareData>>,
 ) -> impl Responder {
     let selected_param = merge_web_param!(a.0, payload);
+    if let Some(resp) = check_namespace_permission(&req, &selected_param.tenant) {
+        return resp;
+    }
     match param_utils::check_tenant(&selected_param.tenant) {
         Ok(v) => v,
         Err(err) => {
@@ -222,11 +226,15 @@ pub(crate) async fn add_config(
 }
 
 pub(crate) async fn del_config(
+    req: HttpRequest,
     a: web::Query<ConfigWebParams>,
     payload: web::Payload,
     appdata: web::Data<Arc<AppShareData>>,
 ) -> impl Responder {
     let selected_param = merge_web_param!(a.0, payload);
+    if let Some(resp) = check_namespace_permission(&req, &selected_param.tenant) {
+        return resp;
+    }
     match param_utils::check_tenant(&selected_param.tenant) {
         Ok(v) => v,
         Err(err) => {
@@ -261,10 +269,30 @@ pub(crate) async fn del_config(
     }
 }
 
+/// the console serves these handlers behind a login session: a session limited to some
+/// namespaces must not reach the configs of the others (without a session every namespace is allowed)
+fn check_namespace_permission(req: &HttpRequest, tenant: &Option<String>) -> Option<HttpResponse> {
+    let tenant = Arc::new(ConfigUtils::default_tenant(
+        tenant.clone().unwrap_or_default(),
+    ));
+    if user_namespace_privilege!(req).check_permission(&tenant) {
+        None
+    } else {
+        Some(HttpResponse::Unauthorized().body(format!(
+            "user no such namespace permission: {}",
+            tenant.as_str()
+        )))
+    }
+}
+
 pub(crate) async fn get_config(
+    req: HttpRequest,
     web_param: web::Query<ConfigWebParams>,
     appdata: web::Data<Arc<AppShareData>>,
 ) -> impl Responder {
+    if let Some(resp) = check_namespace_permission(&req, &web_param.tenant) {
+        return resp;
+    }
     if let Some(search) = web_param.search.as_ref() {
         if search == "blur" {
             let query_param = web_param.0.build_like_search_param();
